@@ -18,6 +18,41 @@ Definition sub (b : bytes) (off len : nat) : option bytes :=
 
 Definition magic : bytes := [80; 65; 82; 49].   (* "PAR1" *)
 
+(** The file is held as blocks of 1024 bytes so that the bytes at an offset are
+    reached in time proportional to offset/1024 instead of offset. *)
+(* absolute offsets and totals are [N] (never unary): [nat] is only used for
+   amounts of data that are actually traversed *)
+Record fbytes := { fb_len : N; fb_blocks : list bytes }.
+
+Definition block_size : nat := 1024.
+
+Fixpoint split_blocks (fuel : nat) (b : bytes) : list bytes :=
+  match fuel with
+  | O => []
+  | S f => match b with
+           | [] => []
+           | _ => firstn block_size b :: split_blocks f (skipn block_size b)
+           end
+  end.
+
+Definition mk_fbytes (b : bytes) : fbytes :=
+  {| fb_len := N.of_nat (length b); fb_blocks := split_blocks (S (length b / block_size)) b |}.
+
+Definition fsub (fb : fbytes) (off : N) (len : nat) : option bytes :=
+  if (off + N.of_nat len <=? fb_len fb) then
+    let bsz := N.of_nat block_size in
+    let bs := skipn (N.to_nat (off / bsz)) (fb_blocks fb) in
+    let inner := N.to_nat (off mod bsz) in
+    let need := S (S ((inner + len) / block_size)) in
+    Some (firstn len (skipn inner (concat (firstn need bs))))
+  else None.
+
+(* thrift structures of parquet files are shallow: this bounds the nesting depth
+   and the number of fields of one struct, not the size of the input *)
+Definition thrift_fuel : nat := 64.
+
+Definition decode_thrift (b : bytes) : option (tval * bytes) := dec_val thrift_fuel T_STRUCT b.
+
 (** * Schema *)
 
 Record leaf := {
@@ -81,7 +116,7 @@ Definition leaves_of (schema : list tval) : option (list leaf) :=
 (** * Pages *)
 
 Record page := {
-  p_offset : nat;           (* file offset of the page header *)
+  p_offset : N;             (* file offset of the page header *)
   p_hlen : nat;             (* header length *)
   p_type : Z;               (* 0 data, 2 dictionary, 3 data v2 *)
   p_comp : nat;             (* compressed_page_size *)
@@ -202,15 +237,33 @@ Definition levels_v2 (maxl n len : nat) (b : bytes) : option (list N * bytes) :=
 Definition count_eq (x : N) (l : list N) : nat := length (filter (N.eqb x) l).
 
 Definition nat_of_field (id : Z) (v : tval) : nat := Z.to_nat (zdef (get_int id v) 0).
+Definition n_of_field (id : Z) (v : tval) : N := Z.to_N (zdef (get_int id v) 0).
+
+(* the page header is decoded from a bounded prefix (headers are small); the
+   whole remainder is only used when that fails *)
+Definition header_window : nat := 4096.
+
+Definition decode_header (rest : bytes) : option (tval * nat * bytes) :=
+  let w := firstn header_window rest in
+  match decode_thrift w with
+  | Some (h, after) =>
+      let hlen := (length w - length after)%nat in
+      Some (h, hlen, skipn hlen rest)
+  | None =>
+      match decode_thrift rest with
+      | Some (h, after) =>
+          let hlen := (length rest - length after)%nat in
+          Some (h, hlen, after)
+      | None => None
+      end
+  end.
 
 (* one page at [off]; [dict] = decoded dictionary so far *)
-Definition decode_page (file : bytes) (lf : leaf) (codec : Z) (dict : list bytes) (off : nat)
+Definition decode_page (rest : bytes) (lf : leaf) (codec : Z) (dict : list bytes) (off : N)
   : option page :=
-  let rest := skipn off file in
-  match dec_val (S (length rest)) T_STRUCT rest with
+  match decode_header rest with
   | None => None
-  | Some (h, after) =>
-      let hlen := (length rest - length after)%nat in
+  | Some (h, hlen, after) =>
       let ptype := zdef (get_int 1 h) (-1) in
       let uncomp := nat_of_field 2 h in
       let comp := nat_of_field 3 h in
@@ -292,22 +345,25 @@ Definition decode_page (file : bytes) (lf : leaf) (codec : Z) (dict : list bytes
   end.
 
 (* all pages of a chunk: from [off], until [stop] *)
-Fixpoint decode_pages (fuel : nat) (file : bytes) (lf : leaf) (codec : Z) (dict : list bytes)
-         (off stop : nat) : option (list page) :=
+Fixpoint decode_pages (fuel : nat) (rest : bytes) (lf : leaf) (codec : Z) (dict : list bytes)
+         (off : N) : option (list page) :=
   match fuel with
   | O => None
   | S f =>
-      if (stop <=? off)%nat then Some []
-      else
-        match decode_page file lf codec dict off with
+      match rest with
+      | [] => Some []
+      | _ =>
+        match decode_page rest lf codec dict off with
         | None => None
         | Some p =>
             let dict' := if (p_type p =? 2)%Z then p_values p else dict in
-            match decode_pages f file lf codec dict' (off + p_hlen p + p_comp p) stop with
+            let adv := (p_hlen p + p_comp p)%nat in
+            match decode_pages f (skipn adv rest) lf codec dict' (off + N.of_nat adv) with
             | Some ps => Some (p :: ps)
             | None => None
             end
         end
+      end
   end.
 
 (** * Column chunks and the footer *)
@@ -316,29 +372,33 @@ Record chunk := {
   c_leaf : leaf;
   c_meta : tval;           (* ColumnMetaData *)
   c_chunk : tval;          (* ColumnChunk *)
-  c_start : nat;
+  c_start : N;
   c_pages : list page;
 }.
 
-Definition chunk_start (md : tval) : nat :=
-  let dpo := nat_of_field 9 md in
-  let dict := nat_of_field 11 md in
-  if (0 <? dict)%nat && (dict <? dpo)%nat then dict else dpo.
+Definition chunk_start (md : tval) : N :=
+  let dpo := n_of_field 9 md in
+  let dict := n_of_field 11 md in
+  if (0 <? dict) && (dict <? dpo) then dict else dpo.
 
-Definition decode_chunk (file : bytes) (lf : leaf) (cc : tval) : option chunk :=
+Definition decode_chunk (file : fbytes) (lf : leaf) (cc : tval) : option chunk :=
   match get 3 cc with
   | None => None
   | Some md =>
       let start := chunk_start md in
       let total := nat_of_field 7 md in
       let codec := zdef (get_int 4 md) 0 in
-      match decode_pages (S total) file lf codec [] start (start + total) with
-      | Some ps => Some {| c_leaf := lf; c_meta := md; c_chunk := cc; c_start := start; c_pages := ps |}
+      match fsub file start total with
       | None => None
+      | Some data =>
+          match decode_pages (S total) data lf codec [] start with
+          | Some ps => Some {| c_leaf := lf; c_meta := md; c_chunk := cc; c_start := start; c_pages := ps |}
+          | None => None
+          end
       end
   end.
 
-Fixpoint decode_chunks (file : bytes) (ls : list leaf) (ccs : list tval) : option (list chunk) :=
+Fixpoint decode_chunks (file : fbytes) (ls : list leaf) (ccs : list tval) : option (list chunk) :=
   match ls, ccs with
   | [], [] => Some []
   | lf :: ls', cc :: ccs' =>
@@ -351,21 +411,21 @@ Fixpoint decode_chunks (file : bytes) (ls : list leaf) (ccs : list tval) : optio
 
 Record row_group := { g_meta : tval; g_chunks : list chunk }.
 
-Record pfile := { f_meta : tval; f_leaves : list leaf; f_groups : list row_group; f_footer_start : nat }.
+Record pfile := { f_meta : tval; f_leaves : list leaf; f_groups : list row_group; f_footer_start : N }.
 
-Definition footer_of (file : bytes) : option (tval * nat) :=
-  let n := length file in
-  if (n <? 12)%nat then None
+Definition footer_of (file : fbytes) : option (tval * N) :=
+  let n := fb_len file in
+  if (n <? 12) then None
   else
-    match sub file 0 4, sub file (n - 4) 4, sub file (n - 8) 4 with
+    match fsub file 0 4, fsub file (n - 4) 4, fsub file (n - 8) 4 with
     | Some m1, Some m2, Some lb =>
         if (of_le m1 =? of_le magic) && (of_le m2 =? of_le magic) then
-          let flen := N.to_nat (of_le lb) in
-          if (flen + 12 <=? n)%nat then
-            match sub file (n - 8 - flen) flen with
+          let flen := of_le lb in
+          if (flen + 12 <=? n) then
+            match fsub file (n - 8 - flen) (N.to_nat flen) with
             | Some fb =>
-                match decode_struct fb with
-                | Some (t, []) => Some (t, (n - 8 - flen)%nat)
+                match decode_thrift fb with
+                | Some (t, []) => Some (t, n - 8 - flen)
                 | _ => None
                 end
             | None => None
@@ -375,7 +435,7 @@ Definition footer_of (file : bytes) : option (tval * nat) :=
     | _, _, _ => None
     end.
 
-Fixpoint decode_groups (file : bytes) (ls : list leaf) (gs : list tval) : option (list row_group) :=
+Fixpoint decode_groups (file : fbytes) (ls : list leaf) (gs : list tval) : option (list row_group) :=
   match gs with
   | [] => Some []
   | g :: gs' =>
@@ -389,7 +449,7 @@ Fixpoint decode_groups (file : bytes) (ls : list leaf) (gs : list tval) : option
       end
   end.
 
-Definition parse (file : bytes) : option pfile :=
+Definition parse (file : fbytes) : option pfile :=
   match footer_of file with
   | None => None
   | Some (md, fstart) =>
@@ -413,6 +473,7 @@ Definition parse (file : bytes) : option pfile :=
 Definition data_pages (c : chunk) : list page := filter (fun p => negb (p_type p =? 2)%Z) (c_pages c).
 
 Definition sum (l : list nat) : nat := fold_left Nat.add l 0%nat.
+Definition sumN (l : list nat) : N := fold_left (fun a x => a + N.of_nat x) l 0.
 
 Definition chunk_rows (c : chunk) : nat :=
   if (l_maxr (c_leaf c) =? 0)%nat then sum (map p_nvalues (data_pages c))
@@ -432,14 +493,14 @@ Definition check_chunk (c : chunk) : list string :=
   let dps := data_pages c in
   let encs := match get_list 2 md with Some l => l | None => [] end in
   check (sum (map p_nvalues dps) =? nat_of_field 5 md)%nat "num_values"
-  ++ check (sum (map (fun p => p_hlen p + p_comp p)%nat (c_pages c)) =? nat_of_field 7 md)%nat "total_compressed_size"
-  ++ check (sum (map (fun p => p_hlen p + p_uncomp p)%nat (c_pages c)) =? nat_of_field 6 md)%nat "total_uncompressed_size"
+  ++ check (sumN (map (fun p => p_hlen p + p_comp p)%nat (c_pages c)) =? n_of_field 7 md) "total_compressed_size"
+  ++ check (sumN (map (fun p => p_hlen p + p_uncomp p)%nat (c_pages c)) =? n_of_field 6 md) "total_uncompressed_size"
   ++ check (forallb p_crc_ok (c_pages c)) "page_crc"
   ++ check (forallb (fun p => in_z (p_encoding p) encs) dps) "encodings_list"
-  ++ check (match dps with p :: _ => (p_offset p =? nat_of_field 9 md)%nat | [] => true end) "data_page_offset"
+  ++ check (match dps with p :: _ => (p_offset p =? n_of_field 9 md) | [] => true end) "data_page_offset"
   ++ check (match c_pages c with
-            | p :: _ => if (p_type p =? 2)%Z then (p_offset p =? nat_of_field 11 md)%nat
-                        else (nat_of_field 11 md =? 0)%nat || (nat_of_field 9 md <=? nat_of_field 11 md)%nat
+            | p :: _ => if (p_type p =? 2)%Z then (p_offset p =? n_of_field 11 md)
+                        else (n_of_field 11 md =? 0) || (n_of_field 9 md <=? n_of_field 11 md)
             | [] => true end) "dictionary_page_offset"
   ++ check (forallb (fun p => match p_nrows p with
                               | Some n => (n =? (if (l_maxr (c_leaf c) =? 0)%nat then p_nvalues p else count_eq 0 (p_rep p)))%nat
@@ -458,14 +519,14 @@ Definition check_group (g : row_group) : list string :=
   let nrows := nat_of_field 3 (g_meta g) in
   concat (map check_chunk (g_chunks g))
   ++ check (forallb (fun c => (chunk_rows c =? nrows)%nat) (g_chunks g)) "row_group_num_rows"
-  ++ check (sum (map (fun c => nat_of_field 7 (c_meta c)) (g_chunks g)) =? nat_of_field 6 (g_meta g))%nat
+  ++ check (fold_left N.add (map (fun c => n_of_field 7 (c_meta c)) (g_chunks g)) 0 =? n_of_field 6 (g_meta g))
        "row_group_total_compressed_size"
-  ++ check (sum (map (fun c => nat_of_field 6 (c_meta c)) (g_chunks g)) =? nat_of_field 2 (g_meta g))%nat
+  ++ check (fold_left N.add (map (fun c => n_of_field 6 (c_meta c)) (g_chunks g)) 0 =? n_of_field 2 (g_meta g))
        "row_group_total_byte_size".
 
 Definition check_file (f : pfile) : list string :=
   concat (map check_group (f_groups f))
-  ++ check (sum (map (fun g => nat_of_field 3 (g_meta g)) (f_groups f)) =? nat_of_field 3 (f_meta f))%nat
+  ++ check (fold_left N.add (map (fun g => n_of_field 3 (g_meta g)) (f_groups f)) 0 =? n_of_field 3 (f_meta f))
        "file_num_rows".
 
 (** offset index of one chunk against the pages found *)
@@ -475,7 +536,7 @@ Definition check_offset_index (c : chunk) (oi : tval) : list string :=
   | Some locs =>
       let dps := data_pages c in
       check (length locs =? length dps)%nat "offset_index_length"
-      ++ check (forallb (fun pl => (nat_of_field 1 (fst pl) =? p_offset (snd pl))%nat) (combine locs dps)) "page_location_offset"
+      ++ check (forallb (fun pl => (n_of_field 1 (fst pl) =? p_offset (snd pl))) (combine locs dps)) "page_location_offset"
       ++ check (forallb (fun pl => (nat_of_field 2 (fst pl) =? p_hlen (snd pl) + p_comp (snd pl))%nat) (combine locs dps))
            "page_location_size"
       ++ check ((fix rows (acc : nat) (l : list (tval * page)) : bool :=
@@ -487,23 +548,24 @@ Definition check_offset_index (c : chunk) (oi : tval) : list string :=
                    end) 0%nat (combine locs dps)) "page_location_first_row_index"
   end.
 
-Definition offset_index_of (file : bytes) (c : chunk) : option tval :=
-  let off := nat_of_field 4 (c_chunk c) in
+Definition offset_index_of (file : fbytes) (c : chunk) : option tval :=
+  let off := n_of_field 4 (c_chunk c) in
   let len := nat_of_field 5 (c_chunk c) in
   if (len =? 0)%nat then None
-  else match sub file off len with
-       | Some b => match decode_struct b with Some (t, _) => Some t | None => None end
+  else match fsub file off len with
+       | Some b => match decode_thrift b with Some (t, _) => Some t | None => None end
        | None => None
        end.
 
-Definition check_indexes (file : bytes) (f : pfile) : list string :=
+Definition check_indexes (file : fbytes) (f : pfile) : list string :=
   concat (map (fun g => concat (map (fun c =>
     match offset_index_of file c with
     | Some oi => check_offset_index c oi
     | None => if (nat_of_field 5 (c_chunk c) =? 0)%nat then [] else ["offset_index_unreadable"]
     end) (g_chunks g))) (f_groups f)).
 
-Definition verify (file : bytes) : option (pfile * list string) :=
+Definition verify (bytes_of_file : bytes) : option (pfile * list string) :=
+  let file := mk_fbytes bytes_of_file in
   match parse file with
   | Some f => Some (f, check_file f ++ check_indexes file f)
   | None => None
